@@ -495,7 +495,7 @@ where
         let x_half = (left + right) / two;
         let r = tol * two.powf(n_max + n_0 - N::from_i32(j).unwrap()) - (right - left) / two;
         let x_f = (f_right * left - f_left * right) / (f_right - f_left);
-        let sigma = (x_half - x_f) / (x_half - x_f).abs();
+        let sigma = (x_half - x_f).signum();
         let delta = k_1 * (right - left).powf(k_2);
         let x_t = if delta <= (x_half - x_f).abs() {
             x_f + sigma * delta
